@@ -6,6 +6,15 @@ KINDS = ("missed-panic", "wrong-panic", "spurious-panic")
 
 
 def run(ck):
+    import c02rec
+    fin = ck.finish
+
+    def finish(**kw):
+        c02rec.panicrec_pass(ck, ck.tier == "quick")   # record layer: obligations, violations, coverage["panicrec"]
+        kw["trusted"] = (kw.get("trusted") or []) + c02rec.TRUSTED
+        kw["level"] = "proof"
+        return fin(**kw)
+    ck.finish = finish
     return c01.run_prog_property(
         ck, "C02", "C02", KINDS, 300, 8000, ["mixed", "panic"],
         "panic behaviour differs from the source semantics",
